@@ -442,3 +442,55 @@ func (e *Expr) conjuncts() []*Expr {
 	}
 	return []*Expr{e}
 }
+
+// inlinePreds expands pred calls into their bodies (so that goals can be split per conjunct).
+func (cs *Contracts) inlinePreds(e *Expr, depth int) *Expr {
+	if e == nil || depth > 8 {
+		return e
+	}
+	if e.Op == "call" {
+		if p, ok := cs.Preds[e.Name]; ok && len(p.Params) == len(e.Args) {
+			m := map[string]*Expr{}
+			for i, pn := range p.Params {
+				m[pn] = cs.inlinePreds(e.Args[i], depth+1)
+			}
+			return cs.inlinePreds(p.Body.subst(m), depth+1)
+		}
+	}
+	n := *e
+	n.Args = make([]*Expr, len(e.Args))
+	for i, a := range e.Args {
+		n.Args[i] = cs.inlinePreds(a, depth+1)
+	}
+	return &n
+}
+
+// goals splits an expression into independently provable goals: top-level conjunctions,
+// and conjunctions on the right of an implication (a ==> b && c  becomes  a ==> b, a ==> c).
+func (cs *Contracts) goals(e *Expr) []*Expr {
+	e = cs.inlinePreds(e, 0)
+	var out []*Expr
+	var rec func(e *Expr, guard *Expr)
+	rec = func(e *Expr, guard *Expr) {
+		switch e.Op {
+		case "bin:&&":
+			rec(e.Args[0], guard)
+			rec(e.Args[1], guard)
+			return
+		case "bin:==>":
+			g := e.Args[0]
+			if guard != nil {
+				g = bin("&&", guard, g)
+			}
+			rec(e.Args[1], g)
+			return
+		}
+		if guard != nil {
+			out = append(out, bin("==>", guard, e))
+		} else {
+			out = append(out, e)
+		}
+	}
+	rec(e, nil)
+	return out
+}
